@@ -169,11 +169,58 @@ insts += variants("addedCols", "SPxBasisBase<R>::addedCols(int n)", [S_addedCols
 for nm, fn in (("changedRow", "SPxBasisBase<R>::changedRow(int)"), ("changedCol", "SPxBasisBase<R>::changedCol(int)"), ("changedElement", "SPxBasisBase<R>::changedElement(int, int)")):
     sl = {"changedRow": S_changedRow, "changedCol": S_changedCol, "changedElement": S_changedElement}[nm]
     insts += variants(nm, fn + " -> invalidate(), restoreInitialBasis()", [sl, S_restore], restore_loops(), M_ch(nm), M_ch(nm)[1:2], [(RIB, 4)], CHANGED, count=(nm == "changedRow"))
-    # no reSize in these: drop the reSize loop contracts
-for i in insts:
-    if i["name"].startswith("changed"):
-        i["loops"] = [l for l in i["loops"] if l["function"] != RSZ]
-        if "unwind_loops" in i: i["unwind_loops"] = [l for l in i["unwind_loops"] if l["function"] != RSZ]
+
+
+KEEPC = ("`infinity` is", "covectors (dim) are", "host member theRep", "host member thecovectors", "SPxLPBase::rhs", "SPxLPBase::lhs", "SPxLPBase::upper", "SPxLPBase::lower",
+         "Desc members rowstat/colstat", "SPxBasisBase::theLP", "SPxBasisBase::thedesc")
+MYCONF = [c for c in CONFORMANCE if any(k in c["why"] for k in KEEPC)] + [
+ {"file": BASIS_H, "regex": r"DataArray\s*<\s*SPxId\s*>\s*theBaseId;", "why": "SPxBasisBase::theBaseId"},
+ {"file": BASIS_H, "regex": r"DataArray\s*<\s*const\s+SVectorBase<R>\*\s*>\s*matrix;", "why": "SPxBasisBase::matrix"},
+ {"file": BASIS_H, "regex": r"bool\s+matrixIsSetup;", "why": "SPxBasisBase::matrixIsSetup"},
+ {"file": BASIS_H, "regex": r"bool\s+factorized;", "why": "SPxBasisBase::factorized"},
+ {"file": BASIS_H, "regex": r"SPxStatus\s+thestatus;", "why": "SPxBasisBase::thestatus"},
+ {"file": BASIS_H, "regex": r"void\s+changedRow\(int\);.*?void\s+changedCol\(int\);.*?void\s+changedElement\(int,\s*int\);", "why": "the changed* hooks take (unused) numbers only"},
+ {"file": BASIS_HPP, "regex": r"void\s+SPxBasisBase<R>::loadMatrixVecs\(\).*?matrix\[i\]\s*=\s*&theLP->vector\(baseId\(i\)\);.*?matrixIsSetup\s*=\s*true;\s*factorized\s*=\s*false;", "why": "loadMatrixVecs stub: sets matrixIsSetup, clears factorized, reloads the matrix pointers from baseId"},
+ {"file": "src/soplex/spxid.h", "regex": r"ROW_ID\s*=\s*-1,.*?INVALID\s*=\s*0,.*?COL_ID\s*=\s*1", "why": "id type codes"},
+ {"file": "src/soplex/spxid.h", "regex": r"SPxId&\s+operator=\(const\s+SPxRowId&\s+rid\)\s*\{\s*DataKey::operator=\s*\(rid\);\s*info\s*=\s*ROW_ID;", "why": "SPxId = SPxRowId keeps the key and marks it a row id"},
+ {"file": "src/soplex/spxid.h", "regex": r"SPxId&\s+operator=\(const\s+SPxColId&\s+cid\)\s*\{\s*DataKey::operator=\s*\(cid\);\s*info\s*=\s*COL_ID;", "why": "SPxId = SPxColId keeps the key and marks it a column id"},
+ {"file": "src/soplex/spxid.h", "regex": r"bool\s+isSPxRowId\(\)\s+const\s*\{\s*return\s+info\s*<\s*0;", "why": "isSPxRowId"},
+ {"file": "src/soplex/spxid.h", "regex": r"bool\s+isSPxColId\(\)\s+const\s*\{\s*return\s+info\s*>\s*0;", "why": "isSPxColId"},
+ {"file": "src/soplex/spxid.h", "regex": r"explicit\s+SPxRowId\(const\s+SPxId&\s+p_key\);", "why": "SPxRowId(SPxId) conversion"},
+ {"file": "src/soplex/spxid.h", "regex": r"explicit\s+SPxColId\(const\s+SPxId&\s+p_key\);", "why": "SPxColId(SPxId) conversion"},
+ {"file": "src/soplex/spxlpbase.h", "regex": r"SPxRowId\s+rId\(int n\)\s+const\s*\{\s*return\s+SPxRowId\(LPRowSetBase<R>::key\(n\)\);", "why": "rId(n) is the key of row n"},
+ {"file": "src/soplex/spxlpbase.h", "regex": r"SPxColId\s+cId\(int n\)\s+const\s*\{\s*return\s+SPxColId\(LPColSetBase<R>::key\(n\)\);", "why": "cId(n) is the key of column n"},
+ {"file": "src/soplex/spxlpbase.h", "regex": r"bool\s+has\(const\s+SPxRowId&\s+id\)\s+const\s*\{\s*return\s+LPRowSetBase<R>::has\(id\);", "why": "has(row id): the row set knows the key"},
+ {"file": "src/soplex/spxlpbase.h", "regex": r"bool\s+has\(const\s+SPxColId&\s+id\)\s+const\s*\{\s*return\s+LPColSetBase<R>::has\(id\);", "why": "has(column id)"},
+ {"file": "src/soplex/spxlpbase.h", "regex": r"const\s+R&\s+maxObj\(int i\)\s+const\s*\{\s*return\s+LPColSetBase<R>::maxObj\(i\);", "why": "SPxLPBase::maxObj(i)"},
+ {"file": "src/soplex/dataarray.h", "regex": r"void\s+reSize\(int newsize\)\s*\{.*?if\(newsize\s*>\s*themax\)\s*reMax\(.*?else\s+thesize\s*=\s*newsize;", "why": "DataArray::reSize sets the size (reallocating beyond the capacity; the stub asserts the capacity instead)"},
+ {"file": "src/soplex/dataset.h", "regex": r"if\(perm\[k\]\s*>=\s*0\)\s*//[^\n]*\n\s*perm\[k\]\s*=\s*j\+\+;", "why": "DataSet::remove(int perm[]) numbers the survivors consecutively in their old order (type invariant of perm)"},
+ {"file": "src/soplex/changesoplex.hpp", "regex": r"SPxLPBase<R>::doRemoveRow\(i\);\s*unInit\(\);\s*if\(SPxBasisBase<R>::status\(\)\s*>\s*SPxBasisBase<R>::NO_PROBLEM\)\s*\{\s*this->removedRow\(i\);", "why": "removedRow is called after the LP removed the row and only with status() > NO_PROBLEM"},
+ {"file": "src/soplex/changesoplex.hpp", "regex": r"SPxLPBase<R>::doRemoveRows\(perm\);\s*unInit\(\);\s*if\(SPxBasisBase<R>::status\(\)\s*>\s*SPxBasisBase<R>::NO_PROBLEM\)\s*\{\s*this->removedRows\(perm\);", "why": "removedRows: same protocol"},
+ {"file": "src/soplex/changesoplex.hpp", "regex": r"SPxLPBase<R>::doRemoveCol\(i\);\s*unInit\(\);\s*if\(SPxBasisBase<R>::status\(\)\s*>\s*SPxBasisBase<R>::NO_PROBLEM\)\s*\{\s*this->removedCol\(i\);", "why": "removedCol: same protocol"},
+ {"file": "src/soplex/changesoplex.hpp", "regex": r"SPxLPBase<R>::doRemoveCols\(perm\);\s*unInit\(\);\s*if\(SPxBasisBase<R>::status\(\)\s*>\s*SPxBasisBase<R>::NO_PROBLEM\)\s*\{\s*this->removedCols\(perm\);", "why": "removedCols: same protocol"},
+ {"file": "src/soplex/changesoplex.hpp", "regex": r"if\(SPxBasisBase<R>::status\(\)\s*>\s*SPxBasisBase<R>::NO_PROBLEM\)\s*SPxBasisBase<R>::addedRows\(n\);", "why": "addedRows only with status() > NO_PROBLEM"},
+ {"file": "src/soplex/changesoplex.hpp", "regex": r"if\(SPxBasisBase<R>::status\(\)\s*>\s*SPxBasisBase<R>::NO_PROBLEM\)\s*SPxBasisBase<R>::addedCols\(n\);", "why": "addedCols only with status() > NO_PROBLEM"},
+ {"file": "src/soplex/changesoplex.hpp", "regex": r"if\(SPxBasisBase<R>::status\(\)\s*>\s*SPxBasisBase<R>::NO_PROBLEM\)\s*SPxBasisBase<R>::changedRow\(i\);", "why": "changedRow only with status() > NO_PROBLEM"},
+ {"file": CHG, "regex": r"static\s+typename\s+SPxBasisBase<R>::Desc::Status\s+primalColStatus\(int i,\s*const\s+SPxLPBase<R>\*\s+theLP\)", "why": "primalColStatus signature (run as a non-template function)"},
+]
+TRUSTED = [
+ "stubs/basis_change_stubs.h: class skeletons SPxLPBase <- SPxSolverBase and (separate) SPxBasisBase(::Desc) replicate only the data members the sliced bodies touch (conformance-checked). In the tree theLP == this (SPxSolverBase derives from SPxLPBase and SPxBasisBase); the hooks use theLP only through LP/solver methods, so the stub solver is a separate object describing the LP AFTER the modification",
+ "DataArray / VectorBase: executable models that ADD the bounds assertion; DataArray::reSize only sets the size and ASSERTS that it fits the storage the wrapper provides (the real one reallocates); elements beyond the old size are arbitrary",
+ "TYPE INVARIANT: a DataArray<Desc::Status> holds values within [-16,15] (assume on element access; only needed because isBasic() multiplies the status by rep() and signed overflow is checked)",
+ "ids: SPxId/SPxRowId/SPxColId are modelled as ONE int code (< 0 row id, > 0 column id, magnitude = key), instead of DataKey{info, idx}; the hooks only test the type, convert, assign and pass ids on. rId(n)/cId(n) read the code of row/column n from ghost key arrays; has(id) is `id != the id of the row/column just removed`",
+ "TYPE INVARIANT (has): every id stored in theBaseId named a row/column of the LP before the modification",
+ "TYPE INVARIANT (removedRow/removedCol, UNIQUE_GONE_ID): basis ids are pairwise distinct, instantiated as `slot != g_js ==> id != removed id` on every baseId() access and, for the ghost slot g_b, in the precondition",
+ "TYPE INVARIANT (removedRows/removedCols, PERM_INVARIANT): perm comes from DataSet::remove(int perm[]) (survivors numbered consecutively in their old order, conformance-checked; units/dataset proves that function): perm[k] < new size, perm[k] <= k, strictly increasing along survivors - assumed on every perm[k] access relative to the ghost index; the *_count instances instead REQUIRE the full characterisation PERM_OK. `const int perm[]` is held as a view object with operator[] (bounds assertion added)",
+ "loadMatrixVecs() is a stub: counts the call, sets matrixIsSetup, clears factorized (conformance-checked); matrix[] entries (pointers to LP vectors) and theLP->vector(id) are not modelled (only the bounds of matrix[j] are checked)",
+ "primalColStatus is a static function template in the tree; its verbatim body runs in a non-template function",
+ "Desc::reSize(int,int) runs as reSize(a,b){members=a,b; reSize_body();} so that its two loops can carry loop contracts (README 1)",
+ "enumerations (Representation, VarStatus, SPxBasisBase::SPxStatus, Desc::Status) and `infinity` are extracted from the tree on every run",
+ "assert() compiled out (NDEBUG semantics); SPX_MSG_* / SPxOut::debug are no-ops; `throw X` calls verif_throw() (the contracts allow no throw)",
+ "wrappers cast int <-> enum (Desc::Status, SPxStatus are passed through the C contract as int)",
+ "descriptor and id arrays capped at CAP = 8 entries per dimension (the explicit basic count CNT sums eight guarded terms); inductive instances use loop contracts (the cap bounds the object size only); the *_count instances unwind every loop completely (--unwinding-assertions) at CAP = 4 and state basicCount == nRows literally",
+ "LP bounds of a new / reset column are assumed not NaN in addedCols and changed* (a NaN bound makes primalColStatus return P_FREE, which the admissibility clause rejects); row sides may be anything",
+]
 doc = {
  "property": ["C04"],
  "desc": "basis-maintenance hooks of spxchangebasis.hpp: after the LP changed, a kept basis has exactly one basic variable per row (explicit count over <= CAP entries), the descriptor and basis ids moved as the LP moved its rows/columns (ghost index), otherwise the basis is given up",
@@ -183,8 +230,8 @@ doc = {
  "timeout_s": 300,
  "extracts": [e for e in EXTRACTS if e["as"] in ("Solver_VarStatus.inc", "Solver_Representation.inc", "SPxBasis_SPxStatus.inc", "Desc_Status.inc")],
  "constants": CONSTANTS,
- "conformance": [],
- "trusted": [],
+ "conformance": MYCONF,
+ "trusted": TRUSTED,
  "instances": insts,
 }
 dump(os.path.join(os.path.dirname(os.path.abspath(__file__)), "unit.json"), doc)
